@@ -41,18 +41,18 @@ BOUNDS = {
     "quick": {"op family": "every Binop operator (12) x every integer type (8) + ptr + - *; unary - ~ x 8 types; every Cast pair of "
                            "{i8..u64, ptr} (81); load and store of every type (9) at a symbolic in-bounds offset into a 16-byte global "
                            "between two other globals; 12 store-T1/load-T2 aliasing pairs; 7 phi/CFG templates",
-              "C corpus": "corpus/cprogs.py through the real C front end (march arm), unoptimised; the loop/branch programs also "
-                          "after optimize level 2 (phis)",
+              "C corpus": "42 programs of corpus/cprogs.py + 12 programs of props/C24.py (EXTRA_PROGS) through the real C front end "
+                          "(march arm), unoptimised; 15 loop/branch programs also after optimize level 2 (phis)",
               "symbolic": "all arguments (full range of the IR type), initial contents of globals (<= 32 bytes), 16 bytes behind "
                           "each pointer argument, 4 external call results",
-              "unwinding": "140 IR instructions per execution (paths reaching it are cut and counted)"},
-    "thorough": {"op family": "same + all 64 store-T1/load-T2 pairs", "C corpus": "every program unoptimised and at optimize level 2",
-                 "unwinding": "300 IR instructions"}}
+              "unwinding": "140 IR instructions per execution (paths reaching it are cut and counted), at most 400 paths per program"},
+    "thorough": {"op family": "same + all 64 store-T1/load-T2 integer pairs (+3 with ptr), the 7 phi/CFG templates at every integer type",
+                 "C corpus": "every program unoptimised and at optimize levels 1, 2, s",
+                 "symbolic": "as quick", "unwinding": "300 IR instructions, at most 1500 paths per program"}}
 OUTSIDE = ["floating point: f32/f64 values, float<->integer casts (the float-to-integer rounding clause of the property is NOT covered; "
            "no symbolic float domain)",
            "blob-typed loads/stores, CopyBlob, JumpTable, InlineAsm (ir2py raises NotImplementedError or is not exercised)",
-           "the representation of pointer VALUES beyond equality modulo 2**32 (ir2py keeps pointers as unbounded Python ints and "
-           "loads/stores them as 4 signed bytes)",
+           "pointer-typed constants outside 0 .. 2**32-1, function pointers / indirect calls, external variables",
            "programs outside the stated families (in particular out-of-object pointer arithmetic and observing the address of a local); "
            "executions longer than the unwinding bound",
            "external functions that modify memory visible to the caller"]
@@ -489,7 +489,7 @@ def same_value(ty, py, ref):
     if not _is_num(py):
         return False, False
     if is_ptr(ty):
-        return (py & 0xFFFFFFFF) == ref, True
+        return (py & 0xFFFFFFFF) == ref, sym_and(py >= 0, py <= 0xFFFFFFFF)
     n = ty.bits
     lo, hi = ty_range(ty)
     if core.ENG is None or not (core.is_sym(py) or core.is_sym(ref)):
@@ -511,6 +511,8 @@ class Ir2PyHarness(Harness):
         self.name = "ir2py[" + ",".join(f"{k}={v}" for k, v in spec.items()) + "]"
         m = build_module(spec)[0]
         self.W = engine_width(m)
+        if os.environ.get("VERIF_TIER_ACTIVE", "quick") != "quick":
+            self.max_paths = 1500
         if any(type(x).__name__ == "Binop" and x.operation in ("/", "%") and irsem.is_signed(x.ty)
                for f in m.functions for b in f for x in b):
             self.prove_timeout_ms = 4000     # sdiv/srem against |a| udiv |b|: z3 gives up, cvc5 (bit-vectors as integers) decides
@@ -729,12 +731,16 @@ def jobs(tier, seed):
     for n in PHI_TEMPLATES:
         specs.append(dict(kind="phi", name=n, ty="i32"))
         if tier != "quick":
-            specs.append(dict(kind="phi", name=n, ty="u8"))
-            specs.append(dict(kind="phi", name=n, ty="i64"))
+            for t in INT_TYPES:
+                if t != "i32":
+                    specs.append(dict(kind="phi", name=n, ty=t))
     for p in [q for q in CORPUS_PROGS if q in cprogs.PROGS] + sorted(EXTRA_PROGS):
         specs.append(dict(kind="c", prog=p, opt=None))
         if tier != "quick" or p in LOOPY:
             specs.append(dict(kind="c", prog=p, opt="2"))
+        if tier != "quick":
+            specs.append(dict(kind="c", prog=p, opt="1"))
+            specs.append(dict(kind="c", prog=p, opt="s"))
     js = [("mk_ir2py", dict(spec=s)) for s in specs]
     only = os.environ.get("VERIF_ONLY")
     if only:
